@@ -341,12 +341,18 @@ def sat(t):
 
 #------------------------------------------------------------------------
 
+# Upper pressure limit of tsat(): the saturation pressure sat() gives at the critical
+# temperature.  With the rounded region 4 coefficients this is marginally above pcritical
+# (by 3.2e-4 Pa), so using pcritical itself would leave tsat(sat(t)) undefined just below
+# the critical temperature.
+psat_critical = max(pcritical, sat(tcritical))
+
 def tsat(p):
     """Saturation temperature (deg C) as a function of pressure.  Returns
     false if called outside its operating range (611.213 Pa <= p <=
-    critical pressure)."""
+    saturation pressure at the critical temperature)."""
 
-    if 611.213 <= p <= pcritical:
+    if 611.213 <= p <= psat_critical:
 
         beta2 = sqrt(p / pstar4)
         beta = sqrt(beta2)
